@@ -558,3 +558,41 @@ impl FootprintGuard {
         }
     }
 }
+
+/// Verification hooks (feature `echo_verif`): the write targets attributed to an op.
+#[cfg(feature = "echo_verif")]
+#[cfg(any(debug_assertions, feature = "footprint_enforce_release"))]
+#[cfg(not(feature = "unsafe_graph"))]
+pub mod verif {
+    use crate::attachment::AttachmentKey;
+    use crate::ident::{EdgeId, NodeId, WarpId};
+    use crate::tick_patch::WarpOp;
+
+    /// Public mirror of the crate-private `OpTargets`.
+    #[derive(Debug, Clone)]
+    pub struct WriteTargets {
+        /// Node ids the op is attributed to write.
+        pub nodes: Vec<NodeId>,
+        /// Edge ids the op is attributed to write.
+        pub edges: Vec<EdgeId>,
+        /// Attachment slots the op is attributed to write.
+        pub attachments: Vec<AttachmentKey>,
+        /// Whether the op is instance-level.
+        pub is_instance_op: bool,
+        /// The instance the op targets.
+        pub op_warp: Option<WarpId>,
+    }
+
+    /// `op_write_targets(op)` as used by `FootprintGuard::check_op`.
+    #[must_use]
+    pub fn write_targets(op: &WarpOp) -> WriteTargets {
+        let t = super::op_write_targets(op);
+        WriteTargets {
+            nodes: t.nodes,
+            edges: t.edges,
+            attachments: t.attachments,
+            is_instance_op: t.is_instance_op,
+            op_warp: t.op_warp,
+        }
+    }
+}
